@@ -193,13 +193,13 @@ def interrupt(R, prog):
                key_fn=lambda ev: P + '.K6:photon::prelocked_thread_interrupt:heap-pop-only-on-owner-vcpu',
                describe=lambda ev: 'sleepq.pop only when the target vCPU is the current vCPU', min_sites=1, what='sleepq.pop')
     K.check_at(R, P + '.K6', G, res, lambda ev: ev.kind == 'call' and ev.callee() == 'photon::AtomicRunQ::insert_tail',
-               require=lambda st, ev: any(own.match(x) for x in st) and 'S:dequeued' in st and 'S:reason' in st,
+               require=lambda st, ev: any(own.match(x) for x in st) and 'S:dequeued' in st,
                key_fn=lambda ev: P + '.K6:photon::prelocked_thread_interrupt:runq-insert-only-on-owner-vcpu',
-               describe=lambda ev: 'run-queue insertion only on the owner vCPU, after dequeue and reason store', min_sites=1, what='insert_tail')
+               describe=lambda ev: 'run-queue insertion only on the owner vCPU, after the dequeue', min_sites=1, what='insert_tail')
     K.check_at(R, P + '.K7', G, res, lambda ev: ev.kind == 'exit',
-               require=lambda st, ev: 'S:reason' in st and 'S:dequeued' in st and (('S:standby' in st) != ('S:runq' in st)),
+               require=lambda st, ev: 'S:dequeued' in st and (('S:standby' in st) != ('S:runq' in st)),    # where the reason is stored is K8's business (callee or every caller)
                key_fn=lambda ev: P + '.K7:photon::prelocked_thread_interrupt:exactly-one-route',
-               describe=lambda ev: 'every path stores the reason, dequeues, and takes exactly one of {standby queue, run queue}', min_sites=1, what='exit')
+               describe=lambda ev: 'every path dequeues and takes exactly one of {standby queue, run queue}', min_sites=1, what='exit')
     K.check_at(R, P + '.K6', G, res, lambda ev: ev.kind == 'call' and ev.callee() == 'photon::thread::dequeue_ready_atomic',
                require=lambda st, ev: (((ev.f.x(ev.f.skip(ev.e['args'][0])) or {}).get('name', '').endswith('STANDBY')) == (not any(own.match(x) for x in st))) if ev.e.get('args') else True,
                key_fn=lambda ev: P + '.K6:photon::prelocked_thread_interrupt:standby-state-iff-remote',
@@ -225,7 +225,7 @@ def interrupt(R, prog):
     th = K.param(f, 0)
     snap = K.locals_defined_only_by(f, r'^%s->state$' % re.escape(th)) | {th + '->state'}
     K.check_at(R, P + '.K6', G, res, lambda ev: wr_field(ev, ERRN),
-               require=lambda st, ev: any(re.match(r'^G:\w+ == 0=T$', x) or re.match(r'^G:\w+=F$', x) or re.match(r'^G:\w+->error_number=F$', x) for x in st if 'error_number' in x)
+               require=lambda st, ev: (('L:%s->lock' % th) in st and any(re.match(r'^G:%s == [1-9]\d*=T$' % re.escape(n), x) for n in snap for x in st)) or any(re.match(r'^G:\w+ == 0=T$', x) or re.match(r'^G:\w+=F$', x) or re.match(r'^G:\w+->error_number=F$', x) for x in st if 'error_number' in x)
                and any(('G:%s == 0=T' % n) in st or ('G:%s=F' % n) in st for n in snap),
                key_fn=lambda ev: P + '.K6:photon::thread_interrupt:mark-only-ready-unmarked',
                describe=lambda ev: 'without the thread lock a reason is stored only for a READY thread with no pending reason', min_sites=1, what='error_number write')
@@ -261,12 +261,17 @@ def shutdown(R, prog):
     for fn, inner in (('photon::do_shutdown_usleep', 'photon::do_thread_usleep'), ('photon::do_shutdown_usleep_defer', 'photon::do_thread_usleep_defer')):
         G = K.build(R, prog, fn)
         f = G.root
-        res = an.run(G, [an.SeenTracker([('capped', lambda ev: ev.kind == 'call' and ev.callee() == 'photon::Timeout::timeout_at_most' and (ev.f.const(ev.e['args'][0]) or 10**9) <= 10000)]),
+        # the cap is a fact about the Timeout OBJECT it was applied to: the object handed to the sleep must be that one
+        # (seed C04-4 capped a copy and slept on the original; capping a copy and sleeping on the copy is fine)
+        is_cap = lambda ev: ev.kind == 'call' and ev.callee() == 'photon::Timeout::timeout_at_most' and 'recv' in ev.e and (ev.f.const(ev.e['args'][0]) or 10**9) <= 10000
+        objs = sorted({ev.path(ev.e['recv']) for nid, idx, ev in G.events() if is_cap(ev) and ev.path(ev.e['recv'])})
+        res = an.run(G, [an.SeenTracker([('capped:' + X, lambda ev, X=X: is_cap(ev) and ev.path(ev.e['recv']) == X) for X in objs] +
+                                        [('recopied:' + X, lambda ev, X=X: ev.kind == 'binop' and ev.e['op'] == '=' and ev.path(ev.e['l']) == X, ('capped:' + X,)) for X in objs]),
                          an.GuardTracker(lambda k: True)])
         K.check_at(R, P + '.K8', G, res, lambda ev, inner=inner: ev.kind == 'call' and ev.callee() == inner,
-                   require=lambda st, ev: 'S:capped' in st and ev.arg_path(0) == f.decls[f.j['params'][0]]['name'],
+                   require=lambda st, ev: ('S:capped:%s' % ev.arg_path(0)) in st,
                    key_fn=lambda ev, fn=fn: '%s.K8:%s:cap-before-sleep' % (P, fn),
-                   describe=lambda ev: 'timeout capped to <= 10 ms before sleeping', min_sites=1, what='sleep')
+                   describe=lambda ev: 'the Timeout object passed to the sleep is one that was capped to <= 10 ms on this path', min_sites=1, what='sleep')
         K.check_at(R, P + '.K6', G, res, lambda ev: ev.kind == 'return' and ev.depth == 0,
                    require=lambda st, ev: ev.f.const(ev.e['sub']) == -1,
                    key_fn=lambda ev, fn=fn: '%s.K6:%s:always-fails' % (P, fn),
@@ -291,6 +296,7 @@ def shutdown_order(R, prog):
 def run(R, prog, tier):
     R.guard(C.interrupt_retest_under_lock, R, prog, P)
     R.guard(shutdown_order, R, prog)
+    R.guard(C.wake_reason_before_publish, R, prog, P)
     R.guard(sleepq, R, prog)
     R.guard(consumption, R, prog)
     R.guard(interrupt, R, prog)
